@@ -46,11 +46,17 @@
               cf. the unflushed-data test in Stream.reset).  C06_duplex_example: the guard is satisfiable with a
               real swap (the echo is written into the adopted slot: no new allocation) .
 
+   TWO TRANSPORTS: the model's flush takes its transport decision from Gen/SwitchC07.v (sticky fallback
+   flag, translated from Stream.Flush; the proof of C06 stops compiling for the non-sticky variant);
+   C06_transport_keeps_order: with that decision every resumption pattern of a receiver that drains the
+   queue before the socket delivers the flushes in order - which is what justifies the single ordered
+   pending list of the model; C06_nonsticky_transport_reorders: the non-sticky variant does not.
+
    Outside the model (assumptions recorded in the evidence): negative sizes, uint32 truncation of
    sizes above 2^31, concurrency (one writer and one reader goroutine per direction; the lock-free
    allocator is C01/C02's subject), Stream.Flush's queue/socket (level (i) correspondence). *)
 From Coq Require Import List ZArith Lia Bool Arith.
-From Shm Require Import Gen.Consts Gen.SwitchC06 Model.LinkedBuffer Proofs.LinkedBufferProofs Proofs.LinkedBufferStore
+From Shm Require Import Gen.Consts Gen.SwitchC06 Gen.SwitchC07 Model.LinkedBuffer Proofs.LinkedBufferProofs Proofs.LinkedBufferStore
   Proofs.LinkedBufferWriter Proofs.LinkedBufferXfer Proofs.LinkedBufferPipe Proofs.LinkedBufferDuplex.
 Import ListNotations.
 Close Scope Z_scope.
@@ -161,6 +167,20 @@ Theorem C06_reuse_without_len_test_loses_unread :
   end.
 Proof. exact reuse_without_len_test_loses_unread. Qed.
 Print Assumptions C06_reuse_without_len_test_loses_unread.
+
+(* ---- two transports (queue / socket): why the pipe may keep ONE ordered list of pending deliveries ---- *)
+(* the transport decision is the one of Stream.Flush (Gen/SwitchC07.v: inFallbackState is sticky); a receiver
+   that resumes with data in both channels drains the queue first; any resumption pattern delivers in order *)
+Theorem C06_transport_keeps_order : forall infb fl chunks,
+  concat chunks = choose sw_fallback_sticky infb fl -> deliver chunks = concat (map (@Datatypes.snd _ _) fl).
+Proof. exact transport_keeps_order. Qed.
+Print Assumptions C06_transport_keeps_order.
+
+Theorem C06_nonsticky_transport_reorders :
+  let big := [1; 2; 3]%Z in let small := [9]%Z in
+  deliver [choose false false [(false, big); (true, small)]] = small ++ big.
+Proof. exact nonsticky_transport_reorders. Qed.
+Print Assumptions C06_nonsticky_transport_reorders.
 
 (* regression of the two former refutations: at size 0 both calls are total no-ops in every state *)
 Theorem C06_discard0_total : forall s, step s (RDiscard 0) = Ok (RN 0, s).
